@@ -3,6 +3,7 @@ package rpcsim
 import (
 	"fmt"
 	"go/ast"
+	"go/token"
 	"strings"
 
 	"verif/harness/hc"
@@ -16,46 +17,98 @@ func leanStrList(l []string) string {
 	return "[" + strings.Join(q, ", ") + "]"
 }
 
-// selectCases returns the communication clauses of every select statement in n whose clause
-// list contains `marker`, as canonical source strings.
-func selectCases(f *hc.Facts, n ast.Node, marker string) []string {
-	var out []string
-	ast.Inspect(n, func(x ast.Node) bool {
-		sel, ok := x.(*ast.SelectStmt)
-		if !ok || out != nil {
-			return true
-		}
-		var cs []string
-		hit := false
-		for _, st := range sel.Body.List {
-			cc := st.(*ast.CommClause)
-			src := "default"
-			if cc.Comm != nil {
-				src = f.Src(cc.Comm)
-			}
-			if src == marker {
-				hit = true
-			}
-			cs = append(cs, src)
-		}
-		if hit {
-			out = cs
-		}
-		return true
-	})
-	return out
+// Src is what the checks read from rpc/engine.go and rpc/ack.go: structured facts that the Lean
+// model INTERPRETS (TdModel.Rpc.Cfg.ofRaw) and that the scheduler uses to decide when a parked
+// thread can be released (so that a changed wake-up condition is explored, not masked).
+type Src struct {
+	OK             bool
+	HookSites      []string
+	GuardPresent   bool     // Do defers: if !CAS(&handlerCalled,0,1) { wait }
+	GuardWait      []string // what the guard waits for: ["<-done"] or the cases of its select
+	CasBeforeDec   bool
+	DoSelect       []string // cases of Do's final select
+	LoopSelect     []string // cases of the retry loop's select
+	WaitClosedPref string   // in Do's close branch, how a concurrent result is detected: done | entered | none
+	LoopClosedAck  bool     // the loop's close branch prefers a concurrently arrived ack
+	RecheckAck     bool     // timer branch: non-blocking <-ackChan before e.send
+	RecheckCtx     bool     // timer branch: ctx.Err() check before e.send
+	DropIfSent     bool     // cancel branch returns before the drop request when the request was not sent
+	NopOnCancel    bool     // cancel branch replaces the handler by a no-op
+	DeleteOnReturn bool     // Do defers delete(e.rpc, id)
+	RemoveAckDefer bool     // retryUntilAck defers e.removeAck(id)
+	AckUnknown     string   // NotifyAcks on an id without waiter: continue | break | return | other
+	AckCloses      bool     // NotifyAcks closes the channel of a known id
+	AckDeletes     bool     // ... and deletes it from e.ack
+	RetryLimitCmp  bool
+	TimerInterval  bool
+	DefMaxRetries  int
+	DefIntervalSec int
+	ForceCloseOK   bool
+	PoolRetryable  []string
+	CliRetryable   []string
 }
 
-// Facts emits the source facts shared by C24, C25 and C26 (namespace TdModel.Facts.<prop>).
-func Facts(f *hc.Facts) {
+func commCases(f *hc.Facts, sel *ast.SelectStmt) []string {
+	var cs []string
+	for _, st := range sel.Body.List {
+		cc := st.(*ast.CommClause)
+		src := "default"
+		if cc.Comm != nil {
+			src = f.Src(cc.Comm)
+		}
+		cs = append(cs, src)
+	}
+	return cs
+}
+
+func clause(f *hc.Facts, sel *ast.SelectStmt, comm string) *ast.CommClause {
+	for _, st := range sel.Body.List {
+		cc := st.(*ast.CommClause)
+		if cc.Comm != nil && f.Src(cc.Comm) == comm {
+			return cc
+		}
+	}
+	return nil
+}
+
+// isTryRecv reports whether st is `select { case <-ch: ...return X; default: }`.
+func isTryRecv(f *hc.Facts, st ast.Stmt, ch string) bool {
+	sel, ok := st.(*ast.SelectStmt)
+	if !ok {
+		return false
+	}
+	cs := commCases(f, sel)
+	if len(cs) != 2 || cs[0] != "<-"+ch || cs[1] != "default" {
+		return false
+	}
+	body := sel.Body.List[0].(*ast.CommClause).Body
+	if len(body) == 0 {
+		return false
+	}
+	_, isRet := body[len(body)-1].(*ast.ReturnStmt)
+	return isRet
+}
+
+func contains(l []string, s string) bool {
+	for _, x := range l {
+		if x == s {
+			return true
+		}
+	}
+	return false
+}
+
+// ReadSrc extracts the facts from the repository f reads.
+func ReadSrc(f *hc.Facts) Src {
+	var s Src
 	do := f.FuncDecl("rpc", "Engine.Do")
 	retry := f.FuncDecl("rpc", "Engine.retryUntilAck")
-	if do == nil || retry == nil {
-		f.Missing("guardPresent", "rpc.Engine.Do / retryUntilAck not found")
-		return
+	acks := f.FuncDecl("rpc", "Engine.NotifyAcks")
+	if do == nil || retry == nil || acks == nil || do.Body == nil || retry.Body == nil || acks.Body == nil {
+		return s
 	}
-	// 1. scheduling points, in source order
-	var sites []string
+	s.OK = true
+	// scheduling points, in source order
 	for _, name := range []string{"Engine.Do", "Engine.retryUntilAck", "Engine.NotifyResult", "Engine.NotifyError", "Engine.Close", "Engine.ForceClose"} {
 		fd := f.FuncDecl("rpc", name)
 		if fd == nil {
@@ -64,106 +117,211 @@ func Facts(f *hc.Facts) {
 		ast.Inspect(fd, func(x ast.Node) bool {
 			if ce, ok := x.(*ast.CallExpr); ok {
 				if id, ok := ce.Fun.(*ast.Ident); ok && id.Name == "verifPoint" && len(ce.Args) == 2 {
-					sites = append(sites, strings.TrimPrefix(name, "Engine.")+":"+strings.Trim(f.Src(ce.Args[0]), "\""))
+					s.HookSites = append(s.HookSites, strings.TrimPrefix(name, "Engine.")+":"+strings.Trim(f.Src(ce.Args[0]), "\""))
 				}
 			}
 			return true
 		})
 	}
-	f.Raw("def hookSites : List String := " + leanStrList(sites) + " -- verifPoint call sites of rpc/engine.go")
-
-	// 2. repair of D13: a deferred function in Do that claims the handler CAS or waits for done
-	guard := false
-	ast.Inspect(do, func(x ast.Node) bool {
-		if d, ok := x.(*ast.DeferStmt); ok {
-			src := f.Src(d)
-			if strings.Contains(src, "CompareAndSwapUint32(&handlerCalled, 0, 1)") && strings.Contains(src, "<-done") {
-				guard = true
+	// Do: top-level statements
+	for _, st := range do.Body.List {
+		switch st := st.(type) {
+		case *ast.DeferStmt:
+			src := f.Src(st)
+			fl, _ := st.Call.Fun.(*ast.FuncLit)
+			if fl == nil {
+				continue
+			}
+			if strings.Contains(src, "delete(e.rpc, req.MsgID)") {
+				s.DeleteOnReturn = true
+			}
+			// the guard: if !CAS(...) { [verifPoint]; <-done | select {...} }
+			for _, gs := range fl.Body.List {
+				ifs, ok := gs.(*ast.IfStmt)
+				if !ok || !strings.Contains(f.Src(ifs.Cond), "CompareAndSwapUint32(&handlerCalled, 0, 1)") || !strings.HasPrefix(f.Src(ifs.Cond), "!") {
+					continue
+				}
+				for _, ws := range ifs.Body.List {
+					switch ws := ws.(type) {
+					case *ast.ExprStmt:
+						if u, ok := ws.X.(*ast.UnaryExpr); ok && u.Op == token.ARROW {
+							s.GuardWait = append(s.GuardWait, f.Src(ws.X))
+						}
+					case *ast.SelectStmt:
+						s.GuardWait = append(s.GuardWait, commCases(f, ws)...)
+					}
+				}
+				s.GuardPresent = len(s.GuardWait) > 0
+			}
+		case *ast.SelectStmt:
+			cs := commCases(f, st)
+			if !contains(cs, "<-done") {
+				continue
+			}
+			s.DoSelect = cs
+			if cc := clause(f, st, "<-e.reqCtx.Done()"); cc != nil && len(cc.Body) > 0 {
+				s.WaitClosedPref = "none"
+				first := cc.Body[0]
+				if isTryRecv(f, first, "done") {
+					s.WaitClosedPref = "done"
+				} else if ifs, ok := first.(*ast.IfStmt); ok && strings.Contains(f.Src(ifs.Cond), "handlerCalled") {
+					s.WaitClosedPref = "entered"
+				}
+			}
+			if cc := clause(f, st, "<-ctx.Done()"); cc != nil {
+				for _, bs := range cc.Body {
+					src := f.Src(bs)
+					if ifs, ok := bs.(*ast.IfStmt); ok && f.Src(ifs.Cond) == "!sent" && strings.Contains(src, "return ctx.Err()") {
+						s.DropIfSent = true
+					}
+					if strings.Contains(src, "e.drop(req)") {
+						break
+					}
+					if strings.Contains(src, "e.rpc[req.MsgID] = func(") {
+						s.NopOnCancel = true
+					}
+				}
 			}
 		}
-		return true
-	})
-	f.Bool("guardPresent", guard, "Do defers: if !CAS(&handlerCalled,0,1) { <-done }")
-	// the handler itself claims the same CAS before touching Output
+	}
 	hsrc := f.Src(do)
-	casBeforeDecode := false
 	if i := strings.Index(hsrc, "handler := func("); i >= 0 {
 		h := hsrc[i:]
 		a := strings.Index(h, "CompareAndSwapUint32(&handlerCalled, 0, 1)")
 		b := strings.Index(h, "req.Output.Decode(")
-		casBeforeDecode = a >= 0 && b > a
+		s.CasBeforeDec = a >= 0 && b > a
 	}
-	f.Bool("handlerCasBeforeDecode", casBeforeDecode, "the handler wins CAS(&handlerCalled,0,1) before req.Output.Decode")
-
-	// 3. repair of D14: the timer branch re-checks ackChan and ctx.Err() before re-sending
-	recheck := false
+	// retryUntilAck
+	for _, st := range retry.Body.List {
+		if d, ok := st.(*ast.DeferStmt); ok && strings.Contains(f.Src(d), "e.removeAck(req.MsgID)") {
+			s.RemoveAckDefer = true
+		}
+	}
 	ast.Inspect(retry, func(x ast.Node) bool {
-		cc, ok := x.(*ast.CommClause)
-		if !ok || cc.Comm == nil || f.Src(cc.Comm) != "<-timer.C()" {
+		sel, ok := x.(*ast.SelectStmt)
+		if !ok || s.LoopSelect != nil {
 			return true
 		}
-		sawAck, sawCtx := false, false
-		for _, st := range cc.Body {
-			src := f.Src(st)
-			if strings.Contains(src, "e.send(") {
-				recheck = sawAck && sawCtx
-				break
-			}
-			if sel, ok := st.(*ast.SelectStmt); ok {
-				cs := selectCases(f, sel, "<-ackChan")
-				if len(cs) == 2 && cs[1] == "default" {
-					sawAck = true
+		cs := commCases(f, sel)
+		if !contains(cs, "<-timer.C()") {
+			return true
+		}
+		s.LoopSelect = cs
+		if cc := clause(f, sel, "<-e.reqCtx.Done()"); cc != nil && len(cc.Body) > 0 {
+			s.LoopClosedAck = isTryRecv(f, cc.Body[0], "ackChan")
+		}
+		if cc := clause(f, sel, "<-timer.C()"); cc != nil {
+			for _, bs := range cc.Body {
+				src := f.Src(bs)
+				if strings.Contains(src, "e.send(") {
+					break
 				}
-			}
-			if _, ok := st.(*ast.IfStmt); ok && strings.Contains(src, "ctx.Err()") {
-				sawCtx = true
+				if isTryRecv(f, bs, "ackChan") {
+					s.RecheckAck = true
+				}
+				if ifs, ok := bs.(*ast.IfStmt); ok && strings.Contains(src, "ctx.Err()") && strings.Contains(f.Src(ifs.Body), "return") {
+					s.RecheckCtx = true
+				}
 			}
 		}
 		return true
 	})
-	f.Bool("recheckPresent", recheck, "retryUntilAck timer branch: non-blocking <-ackChan and ctx.Err() checks before e.send")
-
-	// 4. the two select statements
-	f.Raw("def doSelect : List String := " + leanStrList(selectCases(f, do, "<-done")) + " -- cases of Do's final select")
-	f.Raw("def loopSelect : List String := " + leanStrList(selectCases(f, retry, "<-timer.C()")) + " -- cases of the retry loop's select")
-
-	// 5. retry accounting
 	rsrc := f.Src(retry)
-	f.Bool("retryLimitCmp", strings.Contains(rsrc, "retries++") && strings.Contains(rsrc, "if retries >= e.maxRetries {"),
-		"retries++ then `retries >= e.maxRetries` returns RetryLimitReachedErr")
-	f.Bool("timerUsesInterval", strings.Contains(rsrc, "e.clock.Timer(e.retryInterval)") && strings.Contains(rsrc, "timer.Reset(e.retryInterval)"),
-		"timer created and reset with e.retryInterval")
-
-	// 6. defaults (options.go)
+	s.RetryLimitCmp = strings.Contains(rsrc, "retries++") && strings.Contains(rsrc, "if retries >= e.maxRetries {")
+	s.TimerInterval = strings.Contains(rsrc, "e.clock.Timer(e.retryInterval)") && strings.Contains(rsrc, "timer.Reset(e.retryInterval)")
+	// NotifyAcks: the loop over ids
+	s.AckUnknown = "other"
+	ast.Inspect(acks, func(x ast.Node) bool {
+		rng, ok := x.(*ast.RangeStmt)
+		if !ok {
+			return true
+		}
+		for _, bs := range rng.Body.List {
+			src := f.Src(bs)
+			if ifs, ok := bs.(*ast.IfStmt); ok && f.Src(ifs.Cond) == "!ok" && len(ifs.Body.List) > 0 {
+				switch last := ifs.Body.List[len(ifs.Body.List)-1].(type) {
+				case *ast.BranchStmt:
+					if last.Tok == token.CONTINUE {
+						s.AckUnknown = "continue"
+					} else if last.Tok == token.BREAK {
+						s.AckUnknown = "break"
+					}
+				case *ast.ReturnStmt:
+					s.AckUnknown = "return"
+				}
+			}
+			if strings.HasPrefix(src, "close(ch)") {
+				s.AckCloses = true
+			}
+			if strings.HasPrefix(src, "delete(e.ack, id)") {
+				s.AckDeletes = true
+			}
+		}
+		return false
+	})
+	// defaults (options.go)
 	def := f.FuncSrc("rpc", "Options.setDefaults")
-	mr, iv := -1, -1
-	fmt.Sscanf(after(def, "cfg.MaxRetries = "), "%d", &mr)
-	fmt.Sscanf(after(def, "cfg.RetryInterval = time.Second * "), "%d", &iv)
-	if mr < 0 || iv < 0 {
-		f.Missing("defaultMaxRetries", "setDefaults pattern not found")
-	} else {
-		f.Nat("defaultMaxRetries", mr, "rpc.Options.setDefaults")
-		f.Nat("defaultRetryIntervalSec", iv, "rpc.Options.setDefaults")
-	}
-
-	// 7. close paths
-	f.Bool("forceCloseCancelsWithErrEngineClosed",
-		strings.Contains(f.FuncSrc("rpc", "Engine.ForceClose"), "e.reqCancel(ErrEngineClosed)") &&
-			strings.Contains(f.FuncSrc("rpc", "Engine.ForceClose"), "e.Close()"), "ForceClose = reqCancel(ErrEngineClosed); Close()")
-	for _, p := range [][2]string{{"pool", "poolRetryable"}, {"telegram", "clientRetryable"}} {
-		fd := f.FuncDecl(p[0], "errRetryableOnNewConn")
+	s.DefMaxRetries, s.DefIntervalSec = -1, -1
+	fmt.Sscanf(after(def, "cfg.MaxRetries = "), "%d", &s.DefMaxRetries)
+	fmt.Sscanf(after(def, "cfg.RetryInterval = time.Second * "), "%d", &s.DefIntervalSec)
+	fc := f.FuncSrc("rpc", "Engine.ForceClose")
+	s.ForceCloseOK = strings.Contains(fc, "e.reqCancel(ErrEngineClosed)") && strings.Contains(fc, "e.Close()")
+	for i, dir := range []string{"pool", "telegram"} {
+		fd := f.FuncDecl(dir, "errRetryableOnNewConn")
 		var set []string
 		if fd != nil {
 			ast.Inspect(fd, func(x ast.Node) bool {
 				if ce, ok := x.(*ast.CallExpr); ok && f.Src(ce.Fun) == "errors.Is" && len(ce.Args) == 2 {
-					s := f.Src(ce.Args[1])
-					set = append(set, s[strings.LastIndex(s, ".")+1:])
+					t := f.Src(ce.Args[1])
+					set = append(set, t[strings.LastIndex(t, ".")+1:])
 				}
 				return true
 			})
 		}
-		f.Raw(fmt.Sprintf("def %s : List String := %s -- errors.Is targets of %s.errRetryableOnNewConn", p[1], leanStrList(set), p[0]))
+		if i == 0 {
+			s.PoolRetryable = set
+		} else {
+			s.CliRetryable = set
+		}
 	}
+	return s
+}
+
+// Facts emits the source facts shared by C24, C25 and C26 (namespace TdModel.Facts.<prop>).
+func Facts(f *hc.Facts) {
+	s := ReadSrc(f)
+	if !s.OK {
+		f.Missing("guardPresent", "rpc.Engine.Do / retryUntilAck / NotifyAcks not found")
+		return
+	}
+	f.Raw("def hookSites : List String := " + leanStrList(s.HookSites) + " -- verifPoint call sites of rpc/engine.go")
+	f.Bool("guardPresent", s.GuardPresent, "Do defers: if !CAS(&handlerCalled,0,1) { wait }")
+	f.Raw("def guardWait : List String := " + leanStrList(s.GuardWait) + " -- what the deferred guard waits for after a lost CAS")
+	f.Bool("handlerCasBeforeDecode", s.CasBeforeDec, "the handler wins CAS(&handlerCalled,0,1) before req.Output.Decode")
+	f.Raw("def doSelect : List String := " + leanStrList(s.DoSelect) + " -- cases of Do's final select")
+	f.Raw("def loopSelect : List String := " + leanStrList(s.LoopSelect) + " -- cases of the retry loop's select")
+	f.Str("waitClosedPref", s.WaitClosedPref, "Do's close branch detects a concurrent result by: done (try-receive) | entered (handlerCalled flag) | none")
+	f.Bool("loopClosedAck", s.LoopClosedAck, "the loop's close branch try-receives ackChan first")
+	f.Bool("recheckAck", s.RecheckAck, "timer branch: non-blocking <-ackChan (returning) before e.send")
+	f.Bool("recheckCtx", s.RecheckCtx, "timer branch: ctx.Err() check (returning) before e.send")
+	f.Bool("dropIfSent", s.DropIfSent, "cancel branch: `if !sent { return ctx.Err() }` before the drop request")
+	f.Bool("nopOnCancel", s.NopOnCancel, "cancel branch installs a no-op handler before the drop request")
+	f.Bool("deleteOnReturn", s.DeleteOnReturn, "Do defers delete(e.rpc, req.MsgID)")
+	f.Bool("removeAckDeferred", s.RemoveAckDefer, "retryUntilAck defers e.removeAck(req.MsgID)")
+	f.Str("ackUnknown", s.AckUnknown, "NotifyAcks, id without waiter: what the loop does")
+	f.Bool("ackCloses", s.AckCloses, "NotifyAcks closes the waiter's channel")
+	f.Bool("ackDeletes", s.AckDeletes, "NotifyAcks deletes the waiter from e.ack")
+	f.Bool("retryLimitCmp", s.RetryLimitCmp, "retries++ then `retries >= e.maxRetries` returns RetryLimitReachedErr")
+	f.Bool("timerUsesInterval", s.TimerInterval, "timer created and reset with e.retryInterval")
+	if s.DefMaxRetries < 0 || s.DefIntervalSec < 0 {
+		f.Missing("defaultMaxRetries", "setDefaults pattern not found")
+	} else {
+		f.Nat("defaultMaxRetries", s.DefMaxRetries, "rpc.Options.setDefaults")
+		f.Nat("defaultRetryIntervalSec", s.DefIntervalSec, "rpc.Options.setDefaults")
+	}
+	f.Bool("forceCloseCancelsWithErrEngineClosed", s.ForceCloseOK, "ForceClose = reqCancel(ErrEngineClosed); Close()")
+	f.Raw("def poolRetryable : List String := " + leanStrList(s.PoolRetryable) + " -- errors.Is targets of pool.errRetryableOnNewConn")
+	f.Raw("def clientRetryable : List String := " + leanStrList(s.CliRetryable) + " -- errors.Is targets of telegram.errRetryableOnNewConn")
 }
 
 func after(s, marker string) string {
